@@ -131,7 +131,7 @@ PROPS["C15"] = dict(streams=["C15"], kernel_cases=0, timeout=600,
 PROPS["C14"] = dict(streams=["C14"], kernel_cases=0, timeout=600,
     rule="random centres (poles, antimeridian) and radii (0, sub-millimetre, around the 0.28 m resolution guard, metre..half circumference, pole-grazing and antimeridian-grazing within 1e-6 relative); per case 5 flags: no NaN, inside world bounds, 48 probe locations (bearings every 45 deg, around the tangent bearings, random) whose own great-circle distance is <= radius lie in the rectangle within 1 cm on the ground (longitudes modulo 360), full longitude range when the disc reaches a pole, degenerate rectangle for unresolvable radii; + a sample certified by interval arithmetic (latitude band, tangent-longitude law). non-trivial: all; distinct = distinct case lines",
     trusted_base=GEO_TB, assumptions=["probe locations are proposed by DestinationPoint and accepted by DistanceTo <= radius (DistanceTo is certified against the model by the C15 goals)"],
-    partial=["over the reals the latitude band and the longitude band (tangent longitude) are proved to cover the disc when it reaches neither a pole nor the antimeridian, and the code's atan2 angle is proved to be the tangent longitude (SphereRect.v); the pole / antimeridian branches, world bounds, NaN-freedom and float64 rounding are checked by flags and certified samples"])
+    partial=["over the reals the latitude band and the longitude band (tangent longitude) are proved to cover the disc when it reaches neither a pole nor the antimeridian, and the code's atan2 angle is proved to be the tangent longitude (SphereRect.v); the whole function with its pole / antimeridian branches is proved to cover the disc and to stay within the world bounds (SphereRectFull.v; excluded: radii below the resolution guard and exact tangency to a pole); NaN-freedom and float64 rounding are checked by flags and certified samples"])
 PROPS["C13"] = dict(streams=["C13"], kernel_cases=0, timeout=600,
     rule="random circles (any centre, radii over all scales, 0..4096 steps) against probe points placed inside, outside, at 1e-4 relative of the radius and in the sliver between the circle and its polygon approximation, and against second circles at controlled centre distances (around the sum and the difference of the radii), different step counts; per case 10 flags: Contains/Intersects of Point and SimplePoint = (distance <= radius) outside the tolerance band, operand order, monotone in the radius, circle-contains-circle only if d + rB <= rA, circle-intersects-circle iff d <= rA + rB, JSON round trip to an identical Circle, polygon approximation closed / centred / rect contains centre; + a sample of point decisions certified by interval arithmetic against the model. non-trivial: all; distinct = distinct case lines",
     trusted_base=GEO_TB, assumptions=["negative, NaN, infinite and larger-than-half-circumference radii are used for serialisation and totality only"],
